@@ -197,7 +197,7 @@ def s1(ctx, rep):
 def s2(ctx, rep):
     P = ctx.P
     f = P.func("syne_tune.optimizer.schedulers.multiobjective.non_dominated_priority.nondominated_sort")
-    loops = [s for s in f.node.body if isinstance(s, ast.While)]
+    loops = [s for s in walk_shallow(f.node) if isinstance(s, ast.While)]
     if len(loops) != 1:
         raise AnchorError("nondominated_sort: layer loop not found")
     body = loops[0].body
